@@ -23,8 +23,9 @@ for patch in sys.argv[1:]:
         try: obs = json.loads(res.stdout)
         except Exception: print(patch, 'CHECKER ERROR', res.stderr[-400:]); continue
         bad = [o for o in obs if o['status'] != 'discharged' and o['key'] not in KNOWN]
-        props = sorted({p for o in bad for p in RP.get(o['rule'], [])})
-        print(patch, 'SILENT' if not bad else 'REPORTED by ' + ' '.join(props))
+        props = sorted({p for o in bad for p in (o.get('reported_props', []) if o.get('two_view') else RP.get(o['rule'], []))})
+        bad = [o for o in bad if (not o.get('two_view')) or o.get('reported_props')]
+        print(patch, 'SILENT' if not props else 'REPORTED by ' + ' '.join(props))
         seen=set()
         for o in bad:
             k=(o['rule'],o['function'],o['construct'])
